@@ -29,7 +29,11 @@ META = {
             "are only exercised by the scene oracle (cycle well-formedness, bit-frozen qpos / zero qvel, wake on qpos / qvel / "
             "xfrc_applied / qfrc_applied / contact / equality, sleep-enabled == sleep-disabled while nobody is asleep). "
             "frozen_partial covers the modelled mj_advance (Euler/implicit path), not RK4 (documented as unsupported with sleep) "
-            "nor the forward pipeline. C ints are modelled as unbounded integers.",
+            "nor the forward pipeline. C ints are modelled as unbounded integers (countdown_spec: values stay in [kAwake,-1] or are "
+            "tree indices). Known deviation reported by the oracle under the stable key "
+            "c18:static-static-pair-dropped-by-sleep-flag: with the sleep flag set and nobody asleep, filterCollisionPair drops "
+            "explicit contact pairs between two static (dof-less, non-mocap) bodies, which sleep-disabled runs keep; generated models "
+            "containing such a pair are excluded from the enabled==disabled comparison so that only the directed test reports it.",
 }
 
 THEOREMS = [
@@ -38,6 +42,7 @@ THEOREMS = [
     "MjProof.C18.sleepTrees_preserves",
     "MjProof.C18.sleepTrees_links_cycle",
     "MjProof.C18.sleep_preserves",
+    "MjProof.C18.countdown_spec",
     "MjProof.C18.wakeIsland_preserves",
     "MjProof.C18.wakeIsland_wakes_whole_cycle",
     "MjProof.C18.wake_preserves",
@@ -211,8 +216,6 @@ def gen_ta_ops(ctx, lines, models):
         lines.append(models[("chain", n)])
         vals = [KAWAKE, -2, -1] + list(range(n))
         arrays = list(itertools.product(vals, repeat=n))
-        if n == 5:
-            arrays = rng.sample(arrays, 6000)
         scopes[n] = len(arrays)
         subsets = [p for k in range(1, n + 1) for p in itertools.permutations(range(n), k)]
         for ta in arrays:
@@ -953,8 +956,8 @@ def run(ctx):
     else:
         ctx.oracle_failure("c18:crash", "sleep harness crashed on op lines (rc=%s)" % rc, {"stderr": err[-500:]})
     # ---- scenes
-    scene_scripts(ctx, impl, 60 if thorough else 7)
-    random_model_scenes(ctx, impl, 250 if thorough else 25)
+    scene_scripts(ctx, impl, 120 if thorough else 7)
+    random_model_scenes(ctx, impl, 400 if thorough else 25)
     static_pair_finding(ctx, impl)
 
     if thorough:
